@@ -733,6 +733,37 @@ impl Check for C13 {
     }
 }
 
+/// C13 case from raw text plus four selector bytes (file name, configuration, reference variant): used by the raw-text fuzz target
+pub fn text_case(sel: &[u8], text: &str) -> Value {
+    let mut t = Tape::new(sel);
+    let file = *t.pick(FILE_NAMES);
+    let cfg = match t.below(4) {
+        0 => json!({"localVarPrefix": "test", "csiMethods": [{"src": "plusOperator", "operator": true}, {"src": "tplOperator", "operator": true}, {"src": "substring"}, {"src": "trim"}, {"src": "concat"}, {"src": "replace"}, {"src": "aloneMethod", "allowedWithoutCallee": true}]}),
+        1 => json!({"chainSourceMap": true, "comments": true, "literals": true, "telemetryVerbosity": "DEBUG", "csiMethods": [{"src": "plusOperator", "operator": true}, {"src": "slice"}, {"src": "join", "dst": "x"}]}),
+        2 => json!({"csiMethods": []}),
+        _ => json!({"localVarPrefix": "x", "comments": true, "csiMethods": [{"src": "tplOperator", "operator": true}, {"src": "trim"}]}),
+    };
+    let (comment, files, parent_none) = map_variants(&mut t);
+    let dir = std::path::Path::new(file).parent().map(|p| p.to_string_lossy().to_string()).unwrap_or_default();
+    let served: Vec<Value> = files
+        .iter()
+        .map(|(name, out)| {
+            let path = if name.starts_with('/') { name.clone() } else { std::path::Path::new(&dir).join(name).to_string_lossy().to_string() };
+            match out {
+                ReadOutcome::Bytes(b) => json!({"path": path, "b64": smap::encode_base64(b)}),
+                ReadOutcome::Fail(k) => json!({"path": path, "fail": format!("{:?}", k)}),
+            }
+        })
+        .collect();
+    let mut src = format!("{text}{comment}");
+    if crate::known::avoid_flags().bom_midfile {
+        let mut it = src.chars();
+        let first: String = it.next().map(|c| c.to_string()).unwrap_or_default();
+        src = format!("{first}{}", it.filter(|c| *c != '\u{feff}').collect::<String>());
+    }
+    json!({"src": src, "cfg": cfg, "file": file, "files": served, "parentNone": parent_none, "kind": 3})
+}
+
 pub fn reader_from_case(case: &Value) -> MemReader {
     let mut reader = MemReader::default();
     reader.parent_none = case["parentNone"] == json!(true);
